@@ -106,7 +106,7 @@ def monitor_cancel(case, res, sem, g):
 def run(check):
     check.rule = ("fault enumeration over logical cancellation instants: the caller's context is cancelled when the k-th event is logged (every k of a "
                   "recorded run; 14 sampled per program in quick), at every certain plugin-boundary event (deployment, run-time schema read, execution start/end) of never-ending programs (obeying / ignoring / "
-                  "handler-less plugins, blocked deployment, foreach in progress) and (thorough) at schedule points of the run loop and providers; "
+                  "handler-less plugins, blocked deployment, foreach in progress, loops waiting to be enabled while the run loop is slow) and (thorough) at schedule points of the run loop and providers; "
                   "oracles: Go runtime deadlock report; executions open at cancellation - or begun after it - get the cancel signal before their connection is closed (or are "
                   "closed if they have no handler); nothing open at return; returned outputs have produced dependencies; return within 5 s + sum of closure "
                   "timeouts + slack (re-run alone before it counts); non-trivial = the cancellation fired before the run returned; distinct = (program, instant)")
@@ -116,6 +116,18 @@ def run(check):
         if not rn.hang_oracle_works():
             check.fail_broken("the hang oracle (Go runtime deadlock report) does not fire in this build")
         items = cancelfam.cancel_cases(check, rn, "c06", check.pick(8, 40), check.pick(3 * len(cancelfam.NEVER_ENDING), 6 * len(cancelfam.NEVER_ENDING)), sched_points=check.pick(3, 25))
+        # loops that wait to be enabled by a step's result, cancelled while the run loop is busy with that very result (each
+        # placement of a step output into the data model takes a moment): the loops are closed while the run loop is about to
+        # hand them their `enabled` value
+        for j in range(check.pick(40, 200)):
+            rng = random.Random(derive_seed(check.seed, "c06-enabling", j))
+            prog, scripts, name = cancelfam.prog_loops_waiting_to_be_enabled(rng)
+            kind, nth = rng.choice([("exec-end", 1), ("exec-end", 1), ("conn-close", 2), ("exec-start", 1)])
+            g = {"program": prog, "scripts": scripts, "input": cancelfam.base_input(rng), "shape": "%s/cancel@%s:q#%d+slow-run-loop" % (name, kind, nth), "cancel": (kind, "q", nth)}
+            ms = rng.choice([20, 40])
+            sites = [{"point": "wf:loopState.onStageComplete:store#1", "hit": hh, "ms": ms} for hh in range(1, 25)]
+            c, s_ = runfam.build_case("c06-e%04d" % j, g, triggers=[{"kind": kind, "src": "q", "nth": nth, "action": "cancel:0"}], plan={"sites": sites, "record": True}, plan_scope="execute")
+            items.append((c, s_, g))
         by_id = {c["id"]: (c, s, g) for c, s, g in items}
         out = rn.run_cases([c for c, _s, _g in items], per_case_timeout=120)
         slow_cases = []
